@@ -1,5 +1,46 @@
 import FGVerif.Driver.Shared
-/-! driver operations for C13 (stub: replaced by the property's own driver) -/
+import FGVerif.Model.C13
+/-! driver operations for C13 -/
 namespace C13
-def handle : List SExp → Option SExp := fun _ => none
+open SExp
+
+/-- `(replace <g> <node> <sub parsed at offset 0> (<anchor> …) [<impl graph> | (raised K)])`
+      → `(ok <model result, exact wire form> <spec_model> <spec_impl> <inDomain> <incident order = incSpec>)`
+    `(relabel <g> <offset> [<impl graph>])`
+      → `(ok <model result> <spec_model> <spec_impl>)` -/
+def handle : List SExp → Option SExp
+  | .atom "replace" :: g :: node :: sub :: anchors :: rest => do
+      let g ← asGraph g
+      let node ← asInt node
+      let sub ← asGraph sub
+      let anchors ← asList asNat anchors
+      let model := replaceNode g node sub anchors
+      let specModel := specCheck g node sub anchors model
+      let specImpl ← match rest with
+        | [.list [.atom "raised", _]] => pure (ofBool false)
+        | [impl] => do
+            let out ← asGraph impl
+            pure (ofBool (specCheck g node sub anchors out))
+        | _ => pure none'
+      -- the incident-edge order after the composition step, model of compose vs declarative order
+      let c := compose g (shiftGraph sub g.nodes.length)
+      let incOk := (c.edgesOf node).map (fun e => (e.2.1, e.2.2.2)) == incSpec g node
+      -- (test) the model meets the spec with the labels in the very order of `specLabels`
+      let exactOk := model.nodeIds.all fun a => model.nodeIds.all fun b =>
+        labelsBetween model a b == specLabels g node sub anchors a b
+      pure (.list [.atom "ok", ofGraph model, ofBool specModel, specImpl,
+                   ofBool (inDomain g node sub anchors), ofBool incOk, ofBool exactOk])
+  | .atom "relabel" :: g :: off :: rest => do
+      let g ← asGraph g
+      let off ← asInt off
+      let model := relabelGraph g off
+      let specImpl ← match rest with
+        | [.list [.atom "raised", _]] => pure (ofBool false)
+        | [impl] => do
+            let out ← asGraph impl
+            pure (ofBool (relabelSpecCheck g off out))
+        | _ => pure none'
+      pure (.list [.atom "ok", ofGraph model, ofBool (relabelSpecCheck g off model), specImpl])
+  | _ => none
+
 end C13
